@@ -231,6 +231,18 @@ class P:
             self.expect(")")
             self.expect(";")
             return ("decl", name, e)
+        if v == "const" and self.peek(1)[1] in ("std::ptrdiff_t", "ForwardIterator", "bool", "size_t", "std::size_t"):
+            self.next()      # a const local: same value semantics
+            k, v = self.peek()
+        if k == "id" and v in ("std::ptrdiff_t", "ForwardIterator", "bool", "size_t", "std::size_t") and \
+                self.peek(1)[0] == "id" and self.peek(2)[1] == "(":
+            ty = self.next()[1]
+            name = self.next()[1]
+            self.expect("(")
+            e = self.expr()
+            self.expect(")")
+            self.expect(";")
+            return ("ldecl", ty, name, e)
         if v == "switch":
             self.next()
             self.expect("(")
@@ -326,9 +338,9 @@ class P:
 
     def additive(self):
         e = self.unary()
-        while self.peek()[1] == "+":
-            self.next()
-            e = ("add", e, self.unary())
+        while self.peek()[1] in ("+", "-"):
+            op = self.next()[1]
+            e = ("add" if op == "+" else "sub", e, self.unary())
         return e
 
     def unary(self):
@@ -351,13 +363,16 @@ class P:
             self.expect(")")
         elif k == "id":
             if v == "static_cast":
-                # static_cast<T>(e): value-preserving on the bytes concerned
+                # static_cast<T>(e): value-preserving on the bytes concerned; a cast to std::ptrdiff_t makes the value signed
                 self.expect("<")
+                tys = []
                 while not self.accept(">"):
-                    self.next()
+                    tys.append(self.next()[1])
                 self.expect("(")
                 e = self.expr()
                 self.expect(")")
+                if tys == ["std::ptrdiff_t"]:
+                    e = ("toint", e)
             elif v in ("true", "false"):
                 e = ("bool", v == "true")
             else:
@@ -779,27 +794,55 @@ def accessor_expr(text, cls, name):
     return e
 
 
+class GenAcc(Gen):
+    """expressions of one-line accessors: unqualified zero-argument calls are other accessors of the same class"""
+
+    def __init__(self, spec, text, cls):
+        Gen.__init__(self, spec, [])
+        self.text, self.cls = text, cls
+
+    def ex(self, e):
+        if e[0] == "call" and e[1][0] == "id" and e[1][1] not in FUNCS and not e[2] and "::" not in e[1][1]:
+            return self.ex(accessor_expr(self.text, self.cls, e[1][1]))
+        return Gen.ex(self, e)
+
+
 class Gen2(Gen):
     """statements and expressions over (state `s`, remaining input `it`); results are triples (s, it, returned bool)"""
 
-    def __init__(self, spec, text, sub_specs):
+    def __init__(self, spec, texts, sub_specs):
         Gen.__init__(self, spec, [])
-        self.text = text
+        self.texts = texts            # class name -> source text of its header
         self.sub_specs = sub_specs
         self.it = "it"
+        self.ilocals = {}             # signed locals: name -> lean name
+        self.itlocals = {}            # iterator locals: name -> (offset lean text)
+
+    def sub_of(self, e):
+        """(member key, method) when e is a call on a sub-object: `field_.m(...)` or `Base::m(...)`"""
+        if e[0] != "call":
+            return None
+        f = e[1]
+        if f[0] == "member" and f[1][0] == "id" and f[1][1] in self.spec["subobjects"]:
+            return f[1][1], f[2]
+        if f[0] == "id" and "::" in f[1]:
+            base, meth = f[1].rsplit("::", 1)
+            if base + "::" in self.spec["subobjects"]:
+                return base + "::", meth
+        return None
 
     def sub_gen(self, member):
         field, cls, ns = self.spec["subobjects"][member]
         base = self.sub_specs[cls]
         spec = dict(base)
         spec["members"] = {k: (field + "." + f, ty) for k, (f, ty) in base["members"].items()}
-        g = Gen(spec, [])
-        return g, field, cls, ns
+        return GenAcc(spec, self.texts[cls], cls), field, cls, ns
 
     def ex(self, e):
         k = e[0]
-        if k == "call" and e[1][0] == "member" and e[1][1][0] == "id" and e[1][1][1] in self.spec["subobjects"]:
-            member, meth = e[1][1][1], e[1][2]
+        so = self.sub_of(e)
+        if so:
+            member, meth = so
             g, field, cls, ns = self.sub_gen(member)
             if meth == "parse":
                 if e[2] != [("id", "iter"), ("id", "end")]:
@@ -808,20 +851,92 @@ class Gen2(Gen):
                         "r.2.2", "bool")
             if e[2]:
                 raise Unsupported("accessor with arguments: %s" % meth)
-            ae = accessor_expr(self.text, cls, meth)
-            # a plain data accessor `return member_;`
-            return g.ex(ae)
+            return g.ex(accessor_expr(self.texts[cls], cls, meth))
+        if k == "id" and e[1] in self.ilocals:
+            return [], self.ilocals[e[1]], "int"
+        if k == "toint":
+            p, t, ty = self.ex(e[1])
+            if ty != "nat":
+                raise Unsupported("cast of a %s to a signed number" % ty)
+            return p, "(%s : Int)" % t, "int"
+        if k == "sub":
+            p1, t1, ty1 = self.ex(e[1])
+            p2, t2, ty2 = self.ex(e[2])
+            if p1 or p2 or ty1 != "int" or ty2 != "int":
+                raise Unsupported("subtraction of unsigned numbers (wraps) or with side effects")
+            return [], "(%s - %s)" % (t1, t2), "int"
+        if k == "call" and e[1] == ("id", "std::distance") and e[2] == [("id", "iter"), ("id", "end")]:
+            return [], "(it.length : Int)", "int"
+        if k == "cmp" and e[1] in ("<", ">", "<=", ">="):
+            p1, t1, ty1 = self.ex(e[2])
+            p2, t2, ty2 = self.ex(e[3])
+            if "int" in (ty1, ty2):
+                if p1 or p2:
+                    raise Unsupported("side effect in a signed comparison")
+                if ty1 == "nat" and e[2][0] == "num":
+                    t1 = "(%s : Int)" % t1
+                elif ty1 != "int":
+                    raise Unsupported("mixed signed/unsigned comparison")
+                if ty2 == "nat" and e[3][0] == "num":
+                    t2 = "(%s : Int)" % t2
+                elif ty2 != "int":
+                    raise Unsupported("mixed signed/unsigned comparison")
+                return [], "(%s %s %s)" % (t1, e[1], t2), "prop"
         return Gen.ex(self, e)
 
     def effect(self, st):
+        if st[0] == "if":
+            return self.effect_if(st)
+        if st[0] == "block":
+            out = []
+            for x in st[1]:
+                out += self.effect(x)
+            return out
+        if st[0] == "ldecl":
+            ty, name, e = st[1], st[2], st[3]
+            if ty == "std::ptrdiff_t":
+                p, t, ety = self.ex(e)
+                if ety != "int":
+                    raise Unsupported("signed local initialised with a %s" % ety)
+                self.ilocals[name] = name
+                return p + ["let %s : Int := %s" % (name, t)]
+            if ty == "ForwardIterator":
+                # ForwardIterator next(iter + n)
+                if e[0] != "add" or e[1] != ("id", "iter"):
+                    raise Unsupported("iterator local that is not `iter + n`")
+                p, t, ety = self.ex(e[2])
+                if p or ety != "int":
+                    raise Unsupported("iterator offset")
+                self.itlocals[name] = "%s.toNat" % t
+                return []
+            raise Unsupported("local of type " + ty)
         if st[0] == "expr":
             e = st[1]
             if e == ("preinc", ("id", "iter")):
                 return ["let it := it.drop 1"]
-            if e[0] == "call" and e[1][0] == "member" and e[1][1] in [("id", m) for m in self.spec["subobjects"]] and e[1][2] == "clear" and not e[2]:
-                field = self.spec["subobjects"][e[1][1][1]][0]
+            if e[0] == "assign" and e[1] == "=" and e[2] == ("id", "iter"):
+                if e[3] == ("id", "end"):
+                    return ["let it := ([] : Bytes)"]
+                if e[3][0] == "id" and e[3][1] in self.itlocals:
+                    return ["let it := it.drop %s" % self.itlocals[e[3][1]]]
+                raise Unsupported("assignment to iter")
+            so = self.sub_of(e)
+            if so and so[1] == "clear" and not e[2]:
+                field = self.spec["subobjects"][so[0]][0]
                 return ["let s := { s with %s := {} }" % field]
-            if e[0] == "call" and e[1][0] == "id" and e[1][1] in self.spec["helpers"]:
+            if e[0] == "call" and e[1][0] == "member" and e[1][2] == "insert" and e[1][1][0] == "id" and \
+                    e[1][1][1] in self.spec["members"] and len(e[2]) == 3:
+                # c.insert(c.end(), iter, X): append the input between iter and X
+                f, fty = self.spec["members"][e[1][1][1]]
+                a0, a1, a2 = e[2]
+                if fty != "bytes" or a0 != ("call", ("member", e[1][1], "end"), []) or a1 != ("id", "iter"):
+                    raise Unsupported("insert form")
+                if a2 == ("id", "end"):
+                    return ["let s := { s with %s := s.%s ++ it }" % (f, f)]
+                if a2[0] == "id" and a2[1] in self.itlocals:
+                    return ["let s := { s with %s := s.%s ++ it.take %s }" % (f, f, self.itlocals[a2[1]])]
+                raise Unsupported("insert range")
+            if e[0] == "call" and e[1][0] == "id" and e[1][1] in self.spec.get("helpers", {}):
                 tmpl, tys = self.spec["helpers"][e[1][1]]
                 if len(e[2]) != len(tys):
                     raise Unsupported("arity of helper " + e[1][1])
@@ -835,6 +950,29 @@ class Gen2(Gen):
                 return pre + [tmpl % tuple(args)]
         return Gen.effect(self, st)
 
+    def effect_if(self, st):
+        """an `if` without exits: both the state and the iterator may change in its branches"""
+        p, t, ty = self.ex(st[1])
+        saved = (dict(self.ilocals), dict(self.itlocals))
+        th = self.effect(st[2])
+        self.ilocals, self.itlocals = dict(saved[0]), dict(saved[1])
+        el = self.effect(st[3]) if st[3] is not None else []
+        self.ilocals, self.itlocals = saved
+        return p + ["let sit := if %s then (%s) else (%s)" % (self.cond(t, ty), self.seq(th, "(s, it)"), self.seq(el, "(s, it)")),
+                    "let s := sit.1", "let it := sit.2"]
+
+    def has_effect(self, e):
+        if isinstance(e, tuple):
+            if e[0] in ("preinc", "assign"):
+                return True
+            so = self.sub_of(e) if e[0] == "call" else None
+            if so and so[1] == "parse":
+                return True
+            return any(self.has_effect(x) for x in e[1:] if isinstance(x, (tuple, list)))
+        if isinstance(e, list):
+            return any(self.has_effect(x) for x in e)
+        return False
+
     def stmts(self, stmts, k_end):
         """k_end: Lean term used when control falls off the end (None = must not happen)"""
         if not stmts:
@@ -843,7 +981,7 @@ class Gen2(Gen):
         k = st[0]
         if k == "while":
             raise Unsupported("nested loop")
-        if not may_exit(st):
+        if k == "ldecl" or not may_exit(st):
             lines = self.effect(st)
             tail = self.stmts(rest, k_end)
             if tail is None:
@@ -855,7 +993,12 @@ class Gen2(Gen):
         if k == "block":
             return self.stmts(st[1] + rest, k_end)
         if k == "if":
-            p, t, ty = self.ex(st[1])
+            c = st[1]
+            if c[0] == "and" and self.has_effect(c[2]):
+                # `if (A && B)` with a side effect in B: B is evaluated only when A holds
+                inner = ("if", c[2], st[2], st[3])
+                return self.stmts([("if", c[1], inner, st[3])] + rest, k_end)
+            p, t, ty = self.ex(c)
             th = self.stmts([st[2]] + rest, k_end)
             el = self.stmts(([st[3]] if st[3] is not None else []) + rest, k_end)
             if th is None or el is None:
@@ -878,7 +1021,7 @@ def translate_mh(sub_specs):
     if len(idx) != 1 or idx[0] != 0:
         raise Unsupported("message_headers::parse: expected `while (...) {...}` followed by straight-line code")
     loop, post = stmts[0], stmts[1:]
-    g = Gen2(spec, text, sub_specs)
+    g = Gen2(spec, {"field_line": text, "message_headers": text}, sub_specs)
     tail = g.stmts(post, None)
     if tail is None:
         raise Unsupported("message_headers::parse can fall off its end")
@@ -901,6 +1044,42 @@ def translate_mh(sub_specs):
            "def %s.parse (cfg : Cfg) (s : %s) (buf : Bytes) : %s × Bytes × Bool :=\n  %s.parseLoop cfg (buf.length + 2) s buf\n" % (ns, S, S, ns),
            "end Via\n"]
     return "\n".join(out)
+
+
+SPEC_CK = {
+    "cls": "rx_chunk", "file": "http/chunk.hpp", "struct": "CK", "ns": "GenCK", "enum": "Chunk",
+    "members": {"data_": ("data", "bytes"), "valid_": ("valid", "bool"), "data_cr_": ("dataCr", "bool")},
+    "consts": {"STRICT_CRLF": ("cfg.strict", "bool")},
+    # the chunk_header base class and the trailers member
+    "subobjects": {"ChunkHeader::": ("hdr", "chunk_header", "GenCH"), "trailers_": ("trailers", "message_headers", "GenMH")},
+    "helpers": {},
+}
+
+
+def translate_ck(sub_specs):
+    spec = SPEC_CK
+    with open(os.path.join(INC, spec["file"]), encoding="latin-1") as f:
+        text = f.read()
+    with open(os.path.join(INC, "http/headers.hpp"), encoding="latin-1") as f:
+        htext = f.read()
+    body = function_body(text, spec["cls"], r"\bbool\s+parse\s*\(\s*ForwardIterator\s*&\s*iter\s*,\s*ForwardIterator\s+end\s*\)")
+    p = P(lex(body))
+    st = p.stmt()
+    if p.peek()[0] != "eof" or st[0] != "block":
+        raise Unsupported("trailing tokens after rx_chunk::parse")
+    if any(x[0] == "while" for x in st[1]):
+        raise Unsupported("rx_chunk::parse: unexpected loop")
+    subs = dict(sub_specs)
+    subs["message_headers"] = SPEC_MH
+    g = Gen2(spec, {"chunk_header": text, "message_headers": htext, "rx_chunk": text}, subs)
+    term = g.stmts(st[1], None)
+    if term is None:
+        raise Unsupported("rx_chunk::parse can fall off its end")
+    return ("import ViaGen.CH\nimport ViaGen.MH\n/-\n  GENERATED by tools/cxx2lean.py from rx_chunk::parse in include/via/http/chunk.hpp of /repo's CURRENT tree\n"
+            "  (with the one-line accessors of chunk_header it calls; `std::ptrdiff_t` values are `Int`).  Do not edit.\n"
+            "  ViaProofs/Trans/CK.lean proves the hand-written model equal to this translation.\n-/\n"
+            "set_option linter.unusedVariables false\nnamespace Via\n\n"
+            "def GenCK.parse (cfg : Cfg) (s : CK) (it : Bytes) : CK × Bytes × Bool :=\n  %s\n\nend Via\n" % term)
 
 
 IMPORTS = {"RL": "ViaModel.ReqLine", "SL": "ViaModel.RespLine", "FL": "ViaModel.Headers", "CH": "ViaModel.Chunk"}
@@ -973,6 +1152,19 @@ def main():
         if os.path.exists(out):
             os.remove(out)
         sys.stderr.write("cxx2lean: cannot translate message_headers::parse: %s\n" % (e,))
+        failed += 1
+    out = os.path.join(OUTDIR, "CK.lean")
+    try:
+        text = translate_ck({c["cls"]: c for c in CLASSES})
+        old = open(out).read() if os.path.exists(out) else None
+        if old != text:
+            with open(out, "w") as f:
+                f.write(text)
+        print("ViaGen/CK.lean: %d lines" % text.count("\n"))
+    except (Unsupported, OSError, ValueError, IndexError, KeyError) as e:
+        if os.path.exists(out):
+            os.remove(out)
+        sys.stderr.write("cxx2lean: cannot translate rx_chunk::parse: %s\n" % (e,))
         failed += 1
     sys.exit(1 if failed else 0)
 
